@@ -131,7 +131,9 @@ def expectations : List Expect := [
   ⟨"openapi3/schema.go", "Schema.visitXOFOperations", .index, 1,
      .invariant "ok = 1 ⇒ exactly one index recorded"⟩,
   ⟨"openapi3/schema.go", "SchemaError.Error", .explicitPanic, 2,
-     .unreachable "marshalling of the library's own Schema / decoded JSON value for the message"⟩,
+     -- encoder.Encode(err.Schema) cannot fail for a schema that was loaded from JSON/YAML; encoder.Encode(err.Value)
+     -- does fail for a value holding NaN/±Inf (strconv.ParseFloat, YAML) or a non-string-keyed YAML mapping
+     .knownFinding "F-C10-6"⟩,
   ⟨"openapi3/schema.go", "Types.Is", .index, 1,
      .invariant "second conjunct after len(*types) == 1 (guard is on the dereferenced slice)"⟩,
   ⟨"openapi3/server.go", "Server.MatchRawURL", .index, 1,
@@ -142,7 +144,7 @@ def expectations : List Expect := [
      .unreachable "registration time (init and user set-up), not traffic"⟩,
   ⟨"openapi3filter/req_resp_decoder.go", "UrlencodedBodyDecoder", .derefOptStruct, 1, .refsResolved⟩,
   ⟨"openapi3filter/req_resp_decoder.go", "UrlencodedBodyDecoder", .derefRefValue, 4, .refsResolved⟩,
-  ⟨"openapi3filter/req_resp_decoder.go", "buildResObj", .derefRefValue, 11, .refsResolved⟩,
+  ⟨"openapi3filter/req_resp_decoder.go", "buildResObj", .derefRefValue, 12, .refsResolved⟩,
   ⟨"openapi3filter/req_resp_decoder.go", "buildResObj", .index, 1,
      .invariant "resultArr is made with len(arr) and i ranges over arr"⟩,
   ⟨"openapi3filter/req_resp_decoder.go", "decodeSchemaConstructs", .derefRefValue, 4, .refsResolved⟩,
